@@ -67,6 +67,7 @@ macro_rules! per_impl_search {
             search_thresh!();
             search_enc!();
             search_codec!();
+            search_misc!();
         }
     };
 }
@@ -101,6 +102,8 @@ pub fn run(prop: &str, thorough: bool, seed: u64) {
         "C15" => both!(c15),
         "C16" => both!(c16),
         "C17" => both!(c17),
+        "C03" => both!(c03),
+        "C20" => both!(c20),
         _ => {}
     }
     s.finish();
